@@ -32,6 +32,8 @@ struct Plan {
 
 static PLANS: Lazy<Mutex<HashMap<String, Plan>>> = Lazy::new(|| Mutex::new(HashMap::new()));
 static HOST_CONNS: Lazy<Mutex<u64>> = Lazy::new(|| Mutex::new(0));
+/// requests the mock hosts have parsed so far, as (target) strings: lets a script wait for the n-th request to a target
+static HOST_TARGETS: Lazy<Mutex<Vec<String>>> = Lazy::new(|| Mutex::new(Vec::new()));
 
 struct Parsed {
     method: String,
@@ -243,6 +245,7 @@ fn host_conn(name: String, mut s: TcpStream) {
                 let id = header_get(&p.headers, "x-verif-id").unwrap_or("").to_string();
                 parsed_bytes += p.total_len;
                 let now_ms = std::time::SystemTime::now().duration_since(std::time::UNIX_EPOCH).map(|d| d.as_millis() as u64).unwrap_or(0);
+                HOST_TARGETS.lock().unwrap().push(p.target.clone());
                 verif::trace::emit(json!({"e": "HostRecv", "host": name, "hconn": hconn, "id": id, "t": now_ms,
                     "method": p.method, "target": p.target, "version": p.version,
                     "headers": headers_json(&p.headers), "bodyLen": p.body.len(), "bodySha": sha256_hex(&p.body),
@@ -977,6 +980,18 @@ impl Rig {
                 let path = st["path"].as_str().unwrap();
                 let r = std::fs::remove_dir_all(path);
                 verif::trace::emit(json!({"e": "RemoveDir", "path": path, "ok": r.is_ok()}));
+            }
+            "mark_host_requests" => HOST_TARGETS.lock().unwrap().clear(), // count from here
+            "wait_host_requests" => {
+                // wait until the mock hosts have received n requests whose target starts with the given prefix
+                let prefix = st["target"].as_str().unwrap_or("/").to_string();
+                let n = st["n"].as_u64().unwrap_or(1) as usize;
+                let t0 = std::time::Instant::now();
+                let count = || HOST_TARGETS.lock().unwrap().iter().filter(|t| t.starts_with(&prefix)).count();
+                while count() < n && t0.elapsed() < Duration::from_millis(st["timeout_ms"].as_u64().unwrap_or(10000)) {
+                    std::thread::sleep(Duration::from_millis(2));
+                }
+                verif::trace::emit(json!({"e": "HostRequests", "target": prefix, "n": count(), "want": n}));
             }
             "wait_audit_settled" => {
                 // wait until the listener has caught up with its backlog: the number of pending records stops changing
